@@ -16,6 +16,7 @@ What is NOT closed is listed at the end as `-- OPEN`.
 import TboxModel.C17.BaseProofs
 import TboxModel.C17.InvProofs
 import TboxModel.C17.SeqProofs
+import TboxModel.C17.ExecProofs
 namespace Tbox.C17
 
 /-! ## Layer 1 — one action, every call sequence
@@ -287,6 +288,29 @@ theorem C17_repeat_zero_means_forever :
     eval (comp 0 (.repeat_ 0 .noBreak) [leaf 1 (.func true none)]) = none := by
   decide +kernel
 
+/-! ## ActionExecutor (action_executor.cpp; model Exec.lean, repaired code of patches/C17-06)
+
+`Exec.xrun {} ops` is the state after ANY list of executor operations: append of an action (dummy /
+function / already stopped) with a priority 0..2, cancel(id) of any id, cancelCurrent(), cancelAll(),
+the owner completing a running action, the loop running the queued finish notifications. -/
+
+/-- **one action at a time**: at most one action of the executor is Running, whatever is appended,
+cancelled, pre-empted or completed, in whatever order. -/
+theorem C17_exec_one_at_a_time (ops : List Exec.XOp) (hok : ops.all Exec.opOk = true) :
+    (Exec.running ((Exec.xrun {} ops).q0 ++ (Exec.xrun {} ops).q1 ++ (Exec.xrun {} ops).q2)).length ≤ 1 :=
+  Exec.exec_one_running ops hok
+
+/-- **FIFO within a priority / a Running action is the current head**: in every reachable state the
+actions behind the head of each deque were never started (Idle, or stopped before they were
+appended), and a Running head is the head of the deque `curr_action_deque_index_` points to. -/
+theorem C17_exec_heads_only (ops : List Exec.XOp) (hok : ops.all Exec.opOk = true) :
+    (∀ i a rest, (Exec.xrun {} ops).q i = a :: rest → Exec.tailOk rest = true ∧ (a.st = .running → (Exec.xrun {} ops).curr = some (Exec.nrm i))) := by
+  intro i a rest e
+  have h := Exec.xrun_inv ops {} hok Exec.init_inv1
+  have := h.1 i; rw [e] at this; exact this
+
+example : (Exec.xrun {} [.append .dummy 2, .append .dummy 2, .append .dummy 0, .emit 3 true, .pass]).curr = some 2 := by decide +kernel
+
 /-! ### OPEN (stated, not proved; carried by the executable model + correspondence + monitors)
 
 -- OPEN C17_result_matches_doc: for every tree `t` with `evalOk t`, leaves that finish synchronously or
@@ -301,7 +325,12 @@ theorem C17_repeat_zero_means_forever :
 -- OPEN C17_reset_bisim: after `reset` every later op sequence produces the same observable trace as on
 --   the freshly built tree (equal up to run ids and the dead fields).  Proved: `Clean` + `WF` of the
 --   reset tree (`C17_reset_fresh`); the driver's differential runs contain reset-then-rerun histories.
--- OPEN ActionExecutor (action_executor.cpp) is not modelled.
+-- OPEN ActionExecutor: "the Running action is the head of the HIGHEST-priority non-empty deque" and "the
+--   started / finished callbacks fire at most once per action id" are evaluated by the driver on every
+--   generated executor history (monitors) but not proved (missing: the invariant `running head at i ⇒
+--   deques below i are empty`, and the log invariant `started id ∈ log ⇒ the action with that id is not
+--   Idle`, `finished id ∈ log ⇒ no action with that id`, ids distinct and ≤ the counter).  cancelAll()
+--   only stops the heads and neither removes anything nor calls schedule(): reported, modelled as is.
 -/
 
 end Tbox.C17
